@@ -423,7 +423,7 @@ impl Model {
             None => 1,
             Some(d) => {
                 let mut rr = Rec { rng: &mut self.rng, log: &mut self.drawn };
-                d.to_dist().sample(&mut rr) as u64
+                ref_sample(&d, &mut rr) as u64
             }
         }
     }
@@ -515,17 +515,41 @@ fn apply_op(op: u8, old: u64, v: u64) -> u64 {
     }
 }
 
+/// A sample as documented: the family's draw plus `start`, at least 0, at most `max` when set.
+/// Uniform (the family of nearly every hand-written machine) is drawn here, independently of
+/// dist.rs, with the same library primitive; the other families go through the crate's sampler
+/// (what they return is C13's business).
+pub fn ref_sample<R: RngCore>(d: &DistSpec, rng: &mut R) -> f64 {
+    use rand::Rng;
+    let raw = match d.kind {
+        DistKind::Uniform { low, high } => {
+            if low.0 == high.0 {
+                low.0
+            } else {
+                rng.gen_range(low.0..high.0)
+            }
+        }
+        _ => return d.to_dist().sample(rng),
+    };
+    let mut r: f64 = 0.0;
+    r = r.max(raw + d.start.0);
+    if d.max.0 > 0.0 {
+        r = r.min(d.max.0);
+    }
+    r
+}
+
 fn sample_limit(a: &ActionSpec, r: &mut dyn RngCore) -> u64 {
     match a.limit() {
         None => u64::MAX,
         Some(d) => {
             let mut r = r;
-            d.to_dist().sample(&mut r).round() as u64
+            ref_sample(&d, &mut r).round() as u64
         }
     }
 }
 
 fn sample_clamped(d: &DistSpec, r: &mut dyn RngCore) -> u64 {
     let mut r = r;
-    d.to_dist().sample(&mut r).min(DAY_US).round() as u64
+    ref_sample(d, &mut r).min(DAY_US).round() as u64
 }
